@@ -195,6 +195,12 @@ def check_multifrequency(case, r: R):
         if len(got_I) == len(ids):
             for n in nodes:
                 s, sc = np.zeros(len(ts)), 0.0
+                # a source with an internal resistance / conductance reports its current in the generator convention where
+                # it is active and in the passive convention at the frequencies where its value is zero (DESIGN.md 0.1):
+                # its time function mixes the two, so nodes it touches are judged per frequency only (spectral lines above)
+                if any(cc.is_lossy_source(c) and n in c['nodes'] for c in comps):
+                    r.cls('instant-kcl-skipped-at-lossy-source-node')
+                    continue
                 for c in comps:
                     if c['nodes'][0] == n:
                         s = s + got_I[c['id']]; sc += S_I[c['id']]
@@ -250,7 +256,7 @@ def check_multifrequency(case, r: R):
     # (f) an ideal periodic voltage source reproduces its own waveform up to the truncation error
     if td is not None:
         for c in comps:
-            if c['kind'] != 'periodic_voltage_source' or c['args']['wavetype'] == 'const':
+            if c['kind'] != 'periodic_voltage_source' or c['args']['wavetype'] == 'const' or cc.is_lossy_source(c):
                 continue
             a = c['args']
             nh = int(math.floor(w_max / a['w'] + 1e-9))
@@ -308,7 +314,7 @@ def multi_case(draw):
         # coincidence only to within the frequency resolution (1e-3 rad/s), on either side of a rounding boundary
         others = [others[0] + draw(st.sampled_from([4e-4, 6e-4, -3e-4, 7.5e-4, -5.5e-4, 2e-4]))] + others
     spec = draw(cc.circuit(2, 5, 8, source_kinds_v=('dc_voltage_source', 'ac_voltage_source', 'periodic_voltage_source', 'periodic_voltage_source'),
-                           source_kinds_i=('dc_current_source', 'ac_current_source', 'periodic_current_source'), w_pool=[w0], lossy_prob=0,
+                           source_kinds_i=('dc_current_source', 'ac_current_source', 'periodic_current_source'), w_pool=[w0], lossy_prob=3,
                            min_sources=2, forced_lossy=False,
                            passive=['resistor', 'resistor', 'conductance', 'capacitor', 'capacitor', 'inductance', 'inductance', 'lamp']))
     srcs = [c for c in spec['components'] if c['kind'] in cc.SOURCE_KINDS]
